@@ -1108,7 +1108,8 @@ fn main() {
         for alg in [Alg::Sha, Alg::Kec] {
             for indexed in [false, true] {
                 let n = *rng.pick(&[1usize, 2, 3, 5, 8, 13, 16, 17]);
-                let n = if k == 0 { 8 } else { n };
+                // the second round always distributes ONE entry: the leaf's hash is the root and the only honest proof is empty
+                let n = if k == 0 { 8 } else if k == 1 { 1 } else { n };
                 dist_history(&mut t, &mut rng, alg, indexed, n, 30 + 2 * n);
                 // index universes well above 128: every flag of the universe is observed after
                 // every operation
